@@ -344,7 +344,7 @@ def run_cases(ctx, cases, configs, nontrivial):
                     "weakly": c["weakly"], "model": resp[:60]})
         fs = compare(c, impl, model, configs)
         for f in fs:
-            ctx.failures.append(shrink(f))
+            ctx.fail(f, shrink)
 
 
 def check_pmap(ctx, items):
